@@ -127,4 +127,182 @@ Example C20_bin_ex_skip_container :
   fst (rdr_skip_container (rdr_new 16 [Data 12; Fail; Data 10] exk_input)) = Ok tt /\
   rdr_position (snd (rdr_skip_container (rdr_new 16 [Data 12; Fail; Data 10] exk_input))) = 12 /\
   In Fail (sched (snd (snd (rdr_skip_container (rdr_new 16 [Data 12; Fail; Data 10] exk_input))))).
-Proof. repeat split; try (vm_compute; reflexivity). vm_compute. left. reflexivity. Qed.
+Proof.
+  split; [vm_compute; reflexivity|]. split; [vm_compute; reflexivity|]. split; [vm_compute; reflexivity|].
+  vm_compute. left. reflexivity.
+Qed.
+
+(* ---------- the whole run ---------- *)
+(* run_res = (tokens, (how the run ended, final position)).  No hypothesis on buffer size, input
+   or fuel: the run under faults is the run of the twin (BufferFull of a too small buffer
+   included), or a prefix of the twin's token list followed by the terminal event Err E_Io at a
+   position inside the input.  (The prefix is the whole list when the failing read is the one that
+   would have found the end of the data: C20_bin_ex_run_all_tokens_then_io.) *)
+Theorem C20_bin_run_prefix : forall input fuel s1 s2, steq s1 s2 -> sinv input s1 ->
+  stream_run fuel s1 = stream_run fuel s2 \/
+  exists pre suf p, stream_run fuel s1 = (pre, (Err E_Io, p)) /\ fst (stream_run fuel s2) = pre ++ suf /\
+                    p <= length input.
+Proof. exact stream_run_prefix. Qed.
+Print Assumptions C20_bin_run_prefix.
+
+Theorem C20_bin_stream_lockstep : forall capv sch input,
+  run_stream capv sch input = run_stream capv (clean sch) input \/
+  exists pre suf p, run_stream capv sch input = (pre, (Err E_Io, p)) /\
+                    fst (run_stream capv (clean sch) input) = pre ++ suf /\ p <= length input.
+Proof. exact run_stream_lock. Qed.
+Print Assumptions C20_bin_stream_lockstep.
+
+(* with a buffer that fits the input (C08's hypothesis): the slice lexer's result, or a prefix of
+   the slice lexer's tokens followed by the I/O error *)
+Theorem C20_bin_stream_fault_prefix : forall input sch capv, fits capv input = true ->
+  run_stream capv sch input = run_lexer input \/
+  exists pre suf p, run_stream capv sch input = (pre, (Err E_Io, p)) /\
+                    fst (run_lexer input) = pre ++ suf /\ p <= length input.
+Proof. exact bin_stream_fault_prefix. Qed.
+Print Assumptions C20_bin_stream_fault_prefix.
+
+(* the two cases are exclusive: a slice-lexer run ends with a clean end, LexEof or InvalidRgb
+   (OutOfFuel is part of the model's vocabulary only), never with E_Io *)
+Theorem C20_bin_lexer_run_end : forall fuel l,
+  let o := fst (snd (lex_run fuel l)) in
+  o = Ok tt \/ o = Err E_LexEof \/ o = Err E_InvalidRgb \/ o = OutOfFuel.
+Proof. exact lex_run_end. Qed.
+Theorem C20_bin_lexer_never_io : forall fuel l, fst (snd (lex_run fuel l)) <> Err E_Io.
+Proof. exact lex_run_never_io. Qed.
+
+(* ---------- a failing Read ---------- *)
+(* While the next event of the schedule is Fail (cap > 0 = a real buffer; cap 0 is the slice
+   window, which never reads): next() returns a token only from already-buffered bytes, without
+   touching the Read; it never reports a clean end, LexEof or a crash; the errors are E_Io (the
+   failed read: the schedule advances by that one event, pending data / position / capacity
+   unchanged), BufferFull and InvalidRgb (decided from the window alone, state unchanged). *)
+Theorem C20_bin_persistent_errors_call : forall s tl,
+  sched (snd s) = Fail :: tl -> 0 < cap (fst s) ->
+  match fst (rdr_next s) with
+  | Ok (Some _) => snd (snd (rdr_next s)) = snd s /\ cap (fst (snd (rdr_next s))) = cap (fst s)
+  | Ok None => False
+  | Err e => (e = E_Io /\ snd (snd (rdr_next s)) = rd_after_fail (snd s) /\ kept s (snd (rdr_next s))) \/
+             (e = E_BufferFull /\ snd (rdr_next s) = s) \/ (e = E_InvalidRgb /\ snd (rdr_next s) = s)
+  | _ => False
+  end.
+Proof. exact next_failing. Qed.
+Print Assumptions C20_bin_persistent_errors_call.
+
+Theorem C20_bin_persistent_errors_run_end : forall fuel s tl,
+  sched (snd s) = Fail :: tl -> 0 < cap (fst s) ->
+  let o := fst (snd (stream_run fuel s)) in
+  o = Err E_Io \/ o = Err E_BufferFull \/ o = Err E_InvalidRgb \/ o = OutOfFuel.
+Proof. exact stream_run_failing. Qed.
+Print Assumptions C20_bin_persistent_errors_run_end.
+
+(* against the slice lexer, from any state with a failing Read and a buffer that fits the pending
+   data: the run returns the tokens already buffered (a prefix of the lexer's tokens) and then
+   the I/O error; the only other possibility is that the buffered bytes already decide the
+   lexer's own InvalidRgb (or that the fuel given is too small for the lexer itself) *)
+Theorem C20_bin_persistent_errors_run : forall fuel s l c tl,
+  st_okf s (lx_data l) (lx_position l) c -> length (lx_data l) <= lx_orig l ->
+  fits_fuel fuel c (lx_data l) = true -> 0 < c ->
+  sched (snd s) = Fail :: tl ->
+  (stream_run fuel s = lex_run fuel l /\
+   (fst (snd (lex_run fuel l)) = Err E_InvalidRgb \/ fst (snd (lex_run fuel l)) = OutOfFuel)) \/
+  exists pre suf p, stream_run fuel s = (pre, (Err E_Io, p)) /\ fst (lex_run fuel l) = pre ++ suf /\
+                    p <= lx_orig l.
+Proof. exact persistent_run_lexer. Qed.
+Print Assumptions C20_bin_persistent_errors_run.
+
+Theorem C20_bin_stream_fail_first : forall input capv tl, 0 < capv ->
+  run_stream capv (Fail :: tl) input = ([], (Err E_Io, 0)).
+Proof. exact bin_stream_fail_first. Qed.
+Print Assumptions C20_bin_stream_fail_first.
+
+(* ---------- positions never exceed the bytes delivered ---------- *)
+(* finv s = fill_inv (fst s) (snd s): position + buffered bytes = bytes delivered by the Read;
+   pos_ok s = finv s /\ rdr_position s <= delivered (snd s) *)
+Theorem C20_bin_position_new : forall capv sch input, finv (rdr_new capv sch input).
+Proof. exact finv_new. Qed.
+Theorem C20_bin_position_le_delivered : forall s, finv s ->
+  pos_ok (snd (rdr_next s)) /\ pos_ok (snd (rdr_read s)) /\
+  (forall n, pos_ok (snd (rdr_read_bytes n s))) /\ pos_ok (snd (rdr_skip_container s)).
+Proof. exact bin_position_le_delivered. Qed.
+Print Assumptions C20_bin_position_le_delivered.
+(* together with the stream view: delivered is exactly the number of bytes taken from the data *)
+Theorem C20_bin_delivered_exact : forall input s, sinv input s -> finv s ->
+  delivered (snd s) + length (rest (snd s)) = length input.
+Proof. exact delivered_exact. Qed.
+
+(* ---------- retry ---------- *)
+(* The binary reader consumes nothing before a token is complete, so it is resumable after every
+   I/O error of next(): the reader returned with E_Io holds the same pending data at the same
+   position, and when the rest of the schedule is fault-free the retried call returns the slice
+   lexer's answer for the call that failed.  (For an arbitrary rest of the schedule apply
+   C20_bin_next_fault_lexer to s'.) *)
+Theorem C20_bin_next_retry : forall s l c s',
+  st_okf s (lx_data l) (lx_position l) c -> length (lx_data l) <= lx_orig l -> tok_fits c (lx_data l) = true ->
+  rdr_next s = (Err E_Io, s') ->
+  st_okf s' (lx_data l) (lx_position l) c /\
+  (no_fail (sched (snd s')) = true ->
+   exists s'', rdr_next s' = (fst (lx_next_token l), s'') /\
+               st_ok s'' (lx_data (snd (lx_next_token l))) (lx_position (snd (lx_next_token l))) c).
+Proof. exact bin_next_retry_cursor. Qed.
+Print Assumptions C20_bin_next_retry.
+
+Theorem C20_bin_read_bytes_retry_position : forall n s s' d pos c,
+  st_okf s d pos c -> rdr_read_bytes n s = (Err E_Io, s') -> st_okf s' d pos c.
+Proof. exact bin_read_bytes_io_kept. Qed.
+
+(* ---------- non-vacuity, runs ---------- *)
+Example C20_bin_ex_run :
+  run_stream 16 exb_sched exb_input = ([BId 10285%N], (Err E_Io, 2)) /\
+  run_lexer exb_input = ([BId 10285%N; BEqual; BU32 7%N], (Ok tt, 10)) /\ fits 16 exb_input = true.
+Proof. repeat split; vm_compute; reflexivity. Qed.
+
+(* a schedule with a fault that is never reached: the run is the fault-free run *)
+Example C20_bin_ex_run_unreached_fault :
+  run_stream 16 [Data 20; Data 1; Fail] exb_input = run_lexer exb_input.
+Proof. vm_compute. reflexivity. Qed.
+
+(* the fault hits the read that would have found the end of the data: all tokens, then E_Io *)
+Example C20_bin_ex_run_all_tokens_then_io :
+  run_stream 16 [Data 20; Fail] exb_input = ([BId 10285%N; BEqual; BU32 7%N], (Err E_Io, 10)).
+Proof. vm_compute. reflexivity. Qed.
+
+(* lockstep with a buffer that is too small (the 6-byte u32 token through 4 bytes): the twin
+   ends with BufferFull; an unreached fault changes nothing, a reached one cuts the run *)
+Example C20_bin_ex_lockstep_small_buffer :
+  fits 4 exb_input = false /\
+  run_stream 4 [Data 1; Data 1; Data 1; Data 1; Data 1; Data 1; Data 1; Data 1; Fail] exb_input
+    = ([BId 10285%N; BEqual], (Err E_BufferFull, 4)) /\
+  run_stream 4 [Data 2; Data 2; Fail] exb_input = ([BId 10285%N; BEqual], (Err E_Io, 4)) /\
+  run_stream 4 (clean [Data 2; Data 2; Fail]) exb_input = ([BId 10285%N; BEqual], (Err E_BufferFull, 4)).
+Proof. repeat split; vm_compute; reflexivity. Qed.
+
+(* the hypotheses of C20_bin_persistent_errors_run hold at exb_s1 (the Read is failing, nothing is
+   buffered): the run from there is the I/O error *)
+Example C20_bin_ex_persistent :
+  let l := mklx (skipn 2 exb_input) 10 in
+  sched (snd exb_s1) = Fail :: [Data 10] /\ st_okf exb_s1 (lx_data l) (lx_position l) 16 /\
+  length (lx_data l) <= lx_orig l /\ fits_fuel 9 16 (lx_data l) = true /\
+  stream_run 9 exb_s1 = ([], (Err E_Io, 2)) /\ lex_run 9 l = ([BEqual; BU32 7%N], (Ok tt, 10)).
+Proof. cbv zeta. split; [reflexivity|]. split; [vm_compute; auto|]. split; [vm_compute; repeat constructor|]. repeat split; vm_compute; reflexivity. Qed.
+
+(* the other branch of C20_bin_persistent_errors_run: everything is buffered, the Read is
+   failing, and the buffered bytes hold a malformed rgb block ('=' where '}' is expected) *)
+Definition exr_input : bytes :=
+  concat (map write_token [BId 10285%N; BEqual]) ++
+  [67; 2; 3; 0; 20; 0; 1; 0; 0; 0; 20; 0; 1; 0; 0; 0; 20; 0; 1; 0; 0; 0; 1; 0]%N.
+Example C20_bin_ex_persistent_invalid_rgb :
+  run_stream 32 [Data 30; Fail] exr_input = ([BId 10285%N; BEqual], (Err E_InvalidRgb, 4)) /\
+  run_lexer exr_input = ([BId 10285%N; BEqual], (Err E_InvalidRgb, 4)).
+Proof. split; vm_compute; reflexivity. Qed.
+
+(* retry after the fault of C20_bin_ex_io_error: the retried call returns '=' *)
+Example C20_bin_ex_retry :
+  rdr_next exb_s1 = (Err E_Io, exb_s2) /\ no_fail (sched (snd exb_s2)) = true /\
+  fst (rdr_next exb_s2) = Ok (Some BEqual) /\
+  fst (lx_next_token (mklx (skipn 2 exb_input) 10)) = Ok (Some BEqual) /\
+  rdr_position (snd (rdr_next exb_s2)) = 4.
+Proof. repeat split; vm_compute; reflexivity. Qed.
+
+Example C20_bin_ex_position :
+  finv exb_s0 /\ finv exb_s1 /\ finv exb_s2 /\ delivered (snd exb_s2) = 2 /\ rdr_position exb_s2 = 2.
+Proof. repeat split. Qed.
